@@ -1,0 +1,179 @@
+// Verification hook (only compiled with `--cfg cadence_verif`; see /verif/DESIGN.md section 7).
+//
+// `state.rs` takes `AtomicUsize`, `UnsafeCell` and `Ordering` from here instead of `std` when
+// the guard is on. Every operation is passed through unchanged to the `std` primitive. Under
+// the Kani verifier (`cfg(kani)`) each operation additionally reports itself -- with the
+// `Ordering` it was given -- to the ghost protocol monitor in `ghost`, which encodes the
+// ownership discipline that makes the single `UnsafeCell` of the workspace race free
+// (rely/guarantee reasoning, DESIGN.md section 4, C18).
+
+pub use std::sync::atomic::Ordering;
+
+pub struct AtomicUsize(std::sync::atomic::AtomicUsize);
+pub struct UnsafeCell<T>(std::cell::UnsafeCell<T>);
+
+impl<T> std::fmt::Debug for UnsafeCell<T> {
+    fn fmt(&self, f: &mut std::fmt::Formatter<'_>) -> std::fmt::Result {
+        f.write_str("UnsafeCell")
+    }
+}
+
+impl std::fmt::Debug for AtomicUsize {
+    fn fmt(&self, f: &mut std::fmt::Formatter<'_>) -> std::fmt::Result {
+        self.0.fmt(f)
+    }
+}
+
+impl<T: Default> Default for UnsafeCell<T> {
+    fn default() -> Self {
+        UnsafeCell::new(T::default())
+    }
+}
+
+impl Default for AtomicUsize {
+    fn default() -> Self {
+        AtomicUsize::new(0)
+    }
+}
+
+impl<T> UnsafeCell<T> {
+    pub const fn new(v: T) -> Self {
+        UnsafeCell(std::cell::UnsafeCell::new(v))
+    }
+
+    pub fn get(&self) -> *mut T {
+        #[cfg(kani)]
+        ghost::on_cell_access();
+        self.0.get()
+    }
+}
+
+impl AtomicUsize {
+    pub const fn new(v: usize) -> Self {
+        AtomicUsize(std::sync::atomic::AtomicUsize::new(v))
+    }
+
+    pub fn load(&self, order: Ordering) -> usize {
+        #[cfg(kani)]
+        ghost::interfere(&self.0);
+        let v = self.0.load(order);
+        #[cfg(kani)]
+        ghost::on_load(v, order);
+        v
+    }
+
+    pub fn store(&self, v: usize, order: Ordering) {
+        #[cfg(kani)]
+        {
+            ghost::interfere(&self.0);
+            ghost::on_store(self.0.load(Ordering::SeqCst), v, order);
+        }
+        self.0.store(v, order)
+    }
+
+    pub fn compare_exchange(&self, cur: usize, new: usize, succ: Ordering, fail: Ordering) -> Result<usize, usize> {
+        #[cfg(kani)]
+        ghost::interfere(&self.0);
+        let r = self.0.compare_exchange(cur, new, succ, fail);
+        #[cfg(kani)]
+        ghost::on_cas(cur, new, succ, r);
+        r
+    }
+}
+
+/// Ghost protocol state and the rely/guarantee conditions on the primitives (Kani only).
+///
+/// state: UNSET (0) -> LOADING (1) -> COMPLETE (2); owner of the LOADING phase: none / me / other.
+#[cfg(kani)]
+pub mod ghost {
+    use std::sync::atomic::{AtomicBool as B, AtomicUsize as A, Ordering, Ordering::SeqCst};
+
+    const UNSET: usize = 0;
+    const LOADING: usize = 1;
+    const COMPLETE: usize = 2;
+
+    // owner: 0 none, 1 me, 2 other
+    static OWNER: A = A::new(0);
+    static ACQ: B = B::new(false);
+    static WROTE: B = B::new(false);
+    static OTHERS_ACTIVE: B = B::new(false);
+    static OTHER_PUBLISHED: B = B::new(false);
+
+    pub fn reset(others_active: bool) {
+        OWNER.store(0, SeqCst);
+        ACQ.store(false, SeqCst);
+        WROTE.store(false, SeqCst);
+        OTHER_PUBLISHED.store(false, SeqCst);
+        OTHERS_ACTIVE.store(others_active, SeqCst);
+    }
+
+    pub fn i_won() -> bool {
+        OWNER.load(SeqCst) == 1
+    }
+
+    pub fn other_won() -> bool {
+        OWNER.load(SeqCst) == 2
+    }
+
+    pub fn other_published() -> bool {
+        OTHER_PUBLISHED.load(SeqCst)
+    }
+
+    pub fn acquired_complete() -> bool {
+        ACQ.load(SeqCst)
+    }
+
+    /// rely: before each of my atomic operations the other threads may take any number of
+    /// protocol steps (elect themselves, publish)
+    pub fn interfere(state: &A) {
+        if !OTHERS_ACTIVE.load(SeqCst) {
+            return;
+        }
+        if state.load(SeqCst) == UNSET && kani::any() {
+            state.store(LOADING, SeqCst);
+            OWNER.store(2, SeqCst);
+        }
+        if state.load(SeqCst) == LOADING && OWNER.load(SeqCst) == 2 && kani::any() {
+            state.store(COMPLETE, SeqCst);
+            OTHER_PUBLISHED.store(true, SeqCst);
+        }
+    }
+
+    fn at_least_acquire(o: Ordering) -> bool {
+        matches!(o, Ordering::Acquire | Ordering::AcqRel | Ordering::SeqCst)
+    }
+
+    fn at_least_release(o: Ordering) -> bool {
+        matches!(o, Ordering::Release | Ordering::AcqRel | Ordering::SeqCst)
+    }
+
+    pub fn on_load(v: usize, order: Ordering) {
+        if v == COMPLETE && at_least_acquire(order) {
+            ACQ.store(true, SeqCst);
+        }
+    }
+
+    pub fn on_cas(cur: usize, new: usize, succ: Ordering, r: Result<usize, usize>) {
+        assert!(cur == UNSET && new == LOADING, "[C18] guarantee: the only read-modify-write is the election UNSET -> LOADING");
+        if r.is_ok() {
+            assert!(at_least_acquire(succ), "[C18] guarantee: the election compare-exchange is at least Acquire");
+            assert!(OWNER.load(SeqCst) == 0, "[C18] at most one thread is elected writer");
+            OWNER.store(1, SeqCst);
+        }
+    }
+
+    pub fn on_store(cur: usize, v: usize, order: Ordering) {
+        assert!(OWNER.load(SeqCst) == 1 && cur == LOADING, "[C18] guarantee: only the elected writer stores to the state, and only while LOADING");
+        assert!(v == COMPLETE, "[C18] guarantee: the only plain store publishes COMPLETE");
+        assert!(at_least_release(order), "[C18] guarantee: publication is at least Release");
+        assert!(WROTE.load(SeqCst), "[C18] guarantee: the cell is written before it is published");
+    }
+
+    pub fn on_cell_access() {
+        let writer = OWNER.load(SeqCst) == 1 && !ACQ.load(SeqCst);
+        assert!(writer || ACQ.load(SeqCst), "[C18] guarantee: the cell is touched only by the elected writer before publication, or after an Acquire load that saw COMPLETE");
+        if OWNER.load(SeqCst) == 1 {
+            WROTE.store(true, SeqCst);
+        }
+    }
+}
